@@ -85,34 +85,24 @@ Next ==
   \/ \E i \in Idx : DoDel(i)
 Spec == Init /\ [][Next]_vars
 
-(* random walks: ONE successor per step *)
+(* random walks: ONE successor per step; the call kind is drawn first, then its arguments *)
 Fail8 == << 0, 0, 0, 0, 0, 0, 0, 1 >>
 Fail12 == << 0, 0, 0, 0, 0, 0, 0, 0, 0, 1, 1, 2 >>
-CallsOf(o) ==
-  CASE o = "ha.new" -> {[op |-> o, i |-> i, j |-> 0, t |-> t, p |-> d, a |-> << >>, f |-> Fail8[w], w |-> w] : i \in Idx, t \in Texts, d \in DefPorts, w \in 1..Len(Fail8)}
-    [] o \in {"ha.add", "ha.is", "ha.isso"} ->
-         {[op |-> o, i |-> i, j |-> 0, t |-> "", p |-> 0, a |-> a, f |-> IF o = "ha.add" THEN Fail12[w] ELSE 0, w |-> w] : i \in Idx, a \in Addrs, w \in 1..Len(Fail12)}
-    [] o = "ha.clone" -> {[op |-> o, i |-> i, j |-> j, t |-> "", p |-> 0, a |-> << >>, f |-> Fail12[w], w |-> w] : i \in Idx, j \in Idx, w \in 1..Len(Fail12)}
-    [] o = "ha.resolv" -> {[op |-> o, i |-> i, j |-> 0, t |-> "", p |-> IF w = 1 THEN -2 ELSE 0, a |-> Answers[x], f |-> Fail12[w], w |-> w] : i \in Idx, x \in 1..Len(Answers), w \in 1..Len(Fail12)}
-    [] o = "ha.del" -> {[op |-> o, i |-> i, j |-> 0, t |-> "", p |-> 0, a |-> << >>, f |-> 0, w |-> 0] : i \in Idx}
-Gd(c) == CASE c.op = "ha.new" -> ~Live(c.i)
-           [] c.op = "ha.add" -> Live(c.i) /\ Len(HaAdd(objs[c.i], c.a, c.f, Dev).o.addrs) <= MaxAddrs
-           [] c.op = "ha.resolv" -> Live(c.i) /\ Len(HaResolv(objs[c.i], c.p, c.a, c.f, Dev).o.addrs) <= MaxAddrs
-           [] c.op = "ha.clone" -> WithClone /\ Live(c.i) /\ ~Live(c.j)
-           [] OTHER -> Live(c.i)
-Do(c) ==
-  CASE c.op = "ha.new" -> DoNew(c.i, c.t, c.p, c.f)
-    [] c.op = "ha.add" -> DoAdd(c.i, c.a, c.f)
-    [] c.op \in {"ha.is", "ha.isso"} -> DoQuery(c.i, c.a, c.op)
-    [] c.op = "ha.clone" -> DoClone(c.i, c.j, c.f)
-    [] c.op = "ha.resolv" -> DoResolv(c.i, c.p, c.a, c.f)
-    [] c.op = "ha.del" -> DoDel(c.i)
 OpBag == << "ha.new", "ha.new", "ha.add", "ha.add", "ha.add", "ha.add", "ha.add", "ha.add", "ha.is", "ha.isso", "ha.isso", "ha.clone", "ha.clone",
             "ha.resolv", "ha.resolv", "ha.del" >>
-EnabledCalls(o) == {c \in CallsOf(o) : Gd(c)}
+Pick(seq) == seq[RandomElement(1..Len(seq))]
 SimNext ==
-  \E x \in {RandomElement({y \in 1..Len(OpBag) : EnabledCalls(OpBag[y]) # {}})} :
-    \E c \in {RandomElement(EnabledCalls(OpBag[x]))} : Do(c)
+  LET live == {i \in Idx : Live(i)}  dead == Idx \ live
+      ok(kd) == CASE kd = "ha.new" -> dead # {} [] kd = "ha.clone" -> WithClone /\ live # {} /\ dead # {} [] OTHER -> live # {} IN
+  \E kd \in {Pick(SelectSeq(OpBag, ok))} :
+    CASE kd = "ha.new" -> \E i \in {RandomElement(dead)}, t \in {RandomElement(Texts)}, d \in {RandomElement(DefPorts)}, f \in {Pick(Fail8)} : DoNew(i, t, d, f)
+      [] kd = "ha.add" -> \E i \in {RandomElement(live)}, a \in {RandomElement(Addrs)}, f \in {Pick(Fail12)} :
+                            IF Len(HaAdd(objs[i], a, f, Dev).o.addrs) <= MaxAddrs THEN DoAdd(i, a, f) ELSE DoQuery(i, a, "ha.is")
+      [] kd \in {"ha.is", "ha.isso"} -> \E i \in {RandomElement(live)}, a \in {RandomElement(Addrs)} : DoQuery(i, a, kd)
+      [] kd = "ha.clone" -> \E i \in {RandomElement(live)}, j \in {RandomElement(dead)}, f \in {Pick(Fail12)} : DoClone(i, j, f)
+      [] kd = "ha.resolv" -> \E i \in {RandomElement(live)}, g \in {Pick(<< 0, 0, 0, 0, -2 >>)}, x \in {RandomElement(1..Len(Answers))}, f \in {Pick(Fail12)} :
+                            IF Len(HaResolv(objs[i], g, Answers[x], f, Dev).o.addrs) <= MaxAddrs THEN DoResolv(i, g, Answers[x], f) ELSE DoQuery(i, << 4, 1, 0 >>, "ha.isso")
+      [] kd = "ha.del" -> \E i \in {RandomElement(live)} : DoDel(i)
 SimSpec == Init /\ [][SimNext]_vars
 
 Inv == (\A i \in Idx : HaInv(objs[i])) = TRUE
